@@ -271,4 +271,88 @@ theorem addCore_guarded (fuel : Nat) (s : St) (b : Block) (hg : ¬ Guard s b) :
                     refine absurd (Or.inr ⟨anc, hanc, Or.inr ⟨by omega, ln, hln, ?_⟩⟩) hg
                     simpa using hpv
 
+
+/-! ### the sync fork switch -/
+
+theorem frozen_addBlock (fuel : Nat) (b : Block) : Frozen (fun s => (addBlock fuel s b).1) := by
+  intro s h
+  show (addBlock fuel s b).1.crashed = true ∧ (addBlock fuel s b).1.disk = s.disk
+  unfold addBlock
+  split
+  · exact ⟨h, rfl⟩
+  · split
+    · exact ⟨h, rfl⟩
+    · exact frozen_addCore fuel b s h
+
+theorem frozen_forkAdd (fuel : Nat) : ∀ bs, Frozen (fun s => forkAdd fuel s bs) := by
+  intro bs
+  induction bs with
+  | nil => intro s h; exact ⟨h, rfl⟩
+  | cons b bs ih =>
+    intro s h
+    have a : (addBlock fuel s b).1.crashed = true ∧ (addBlock fuel s b).1.disk = s.disk := frozen_addBlock fuel b s h
+    show (forkAdd fuel s (b :: bs)).crashed = true ∧ (forkAdd fuel s (b :: bs)).disk = s.disk
+    unfold forkAdd
+    split
+    · rename_i s' heq
+      have e : (addBlock fuel s b).1 = s' := by rw [heq]
+      rw [e] at a
+      have c := ih s' a.1
+      exact ⟨c.1, c.2.trans a.2⟩
+    · rename_i s' r _ heq
+      have e : (addBlock fuel s b).1 = s' := by rw [heq]
+      rw [e] at a
+      exact a
+
+theorem safe_forkAdd (fuel : Nat) : ∀ bs, KeepSafe (fun s => forkAdd fuel s bs) := by
+  intro bs
+  induction bs with
+  | nil => exact fun _ h => h
+  | cons b bs ih =>
+    intro s h
+    have a : Safe (addBlock fuel s b).1 := safe_addBlock fuel b s h
+    show Safe (forkAdd fuel s (b :: bs))
+    unfold forkAdd
+    split
+    · rename_i s' heq
+      have e : (addBlock fuel s b).1 = s' := by rw [heq]
+      rw [e] at a
+      exact ih s' a
+    · rename_i s' r _ heq
+      have e : (addBlock fuel s b).1 = s' := by rw [heq]
+      rw [e] at a
+      exact a
+
+theorem forkAdd_post {T : Nat → Option Block} (vt : ValidTree T) (fuel : Nat) :
+    ∀ (bs : List Block) (s : St) (c : List Block), s.crashed = false → Inv T s.disk s.mem c →
+      (∀ b ∈ bs, T b.hash = some b) → Post T (forkAdd fuel s bs) := by
+  intro bs
+  induction bs with
+  | nil => intro s c ha inv _; exact Out.alive ha ⟨c, inv⟩
+  | cons b bs ih =>
+    intro s c ha inv hT
+    have hp := addBlock_post vt fuel s b c ha inv (hT b (List.mem_cons_self ..))
+    unfold forkAdd
+    split
+    · rename_i s' heq
+      have e : (addBlock fuel s b).1 = s' := by rw [heq]
+      rw [e] at hp
+      refine Out.bind hp (frozen_forkAdd fuel bs) ?_ (fun _ r => r)
+      intro ha' p
+      obtain ⟨c', inv'⟩ := p
+      exact ih s' c' ha' inv' (fun b' hb' => hT b' (List.mem_cons_of_mem _ hb'))
+    · rename_i s' r _ heq
+      have e : (addBlock fuel s b).1 = s' := by rw [heq]
+      rw [e] at hp
+      exact hp
+
+theorem forkSwitch_post {T : Nat → Option Block} (vt : ValidTree T) (fuel : Nat) (s : St) (anc : Block)
+    (bs : List Block) (c : List Block) (ha : s.crashed = false) (inv : Inv T s.disk s.mem c)
+    (hT : ∀ b ∈ bs, T b.hash = some b) : Post T (forkSwitch fuel s anc bs) := by
+  unfold forkSwitch
+  refine Out.bind (removeFrom_spec anc ha inv) (frozen_forkAdd fuel bs) ?_ (fun _ r => r)
+  intro ha' p
+  obtain ⟨c', inv'⟩ := p
+  exact forkAdd_post vt fuel bs _ c' ha' inv' hT
+
 end Rangers.Proofs.ChainStore
